@@ -9,7 +9,8 @@ from vlib.runner import Result, SubCheck, Violation
 
 PROPERTY = "C16"
 LEVEL = "exploration"
-RULE = ("The generated simulations of C15 plus arms that never occur in the data and batch sizes that do not divide "
+RULE = ("One bandit in three has been trained and queried through the public API before the Simulator (and the reference copy) sees it. "
+        "The generated simulations of C15 plus arms that never occur in the data and batch sizes that do not divide "
         "the test size. After run(): the test indices and their complement partition the rows (the last rows when "
         "ordered); every bandit has exactly one prediction per test row, each a current arm; arm_to_stats_total / "
         "train / test equal a direct numpy recomputation (count, sum, min, max, mean, population std; zeros for "
